@@ -485,7 +485,7 @@ Definition peer_disconnected (c : chan) : chan :=
     let c := match c_pending_fee c with Some (_, FS_RemoteAnnounced) => set_fee c (c_feerate c) None | _ => c end in
     set_flags c (c_awaiting_raa c) true (c_resend_raa_first c).
 
-Definition INITIAL_COMMITMENT_NUMBER : Z := 2 ^ 48 - 1.
+Definition INITIAL_COMMITMENT_NUMBER : Z := 281474976710655. (* (1 << 48) - 1 *)
 
 (** The [channel_reestablish] we send: [next_local_commitment_number] and
     [next_remote_commitment_number]. *)
